@@ -25,6 +25,9 @@ def fdToJson : FDResult → J
   | .ok (some .typenameField) => .str "typename"
   | .ok (some (.ordinary f)) => .str ("ordinary:" ++ f.name)
 
+/-- (interface name, names listed) pairs of `Spec.decodeAll` / `Spec.implementers` -/
+def pairsJ (l : List (String × List String)) : J := .arr (l.map fun p => .arr [.str p.1, J.ofStrs p.2])
+
 def handle (j : J) : J :=
   let s := Driver.schemaOfJson (j.getD "schema")
   match j.strD "op" with
@@ -44,8 +47,10 @@ def handle (j : J) : J :=
       | some l => .obj [("r", .arr (l.map fun (k, d) => .arr [.str k, fdToJson (.ok (some d))]))]
   | "lossless" =>
     .obj [("decoded", Driver.schemaToJson (Spec.schemaOfIntrospection (introspect s true))),
-          ("norm", Driver.schemaToJson (Spec.norm s)), ("depthOk", .bool (Spec.DepthOk s))]
-  | "decodeReal" => .obj [("decoded", Driver.schemaToJson (Spec.schemaOfIntrospection (j.getD "data")))]
+          ("norm", Driver.schemaToJson (Spec.norm s)), ("depthOk", .bool (Spec.DepthOk s)),
+          ("possible", pairsJ (Spec.decodeAll (introspect s true)).2), ("implementers", pairsJ (Spec.implementers s))]
+  | "decodeReal" => .obj [("decoded", Driver.schemaToJson (Spec.decodeAll (j.getD "data")).1),
+                          ("possible", pairsJ (Spec.decodeAll (j.getD "data")).2)]
   | "format" =>
     .obj [("text", jChars (Generated.Introspection.formatDefaultValue s (j.boolD "has_default") (j.getD "value")
             (Driver.tyOfJson (j.getD "type"))))]
